@@ -534,6 +534,22 @@ impl QueryRouter {
 
                 // Likely a read-only query
                 Query(query) => {
+                    // The shard is inferred first: activity-based routing below only
+                    // decides the role and must not skip it.
+                    match &self.pool_settings.automatic_sharding_key {
+                        Some(_) => {
+                            // TODO: if we have multiple queries in the same message,
+                            // we can either split them and execute them individually
+                            // or discard shard selection. If they point to the same shard though,
+                            // we can let them through as-is.
+                            // This is basically building a database now :)
+                            let inferred_shard = self.infer_shard(query);
+                            self.handle_inferred_shard(inferred_shard, &mut prev_inferred_shard)?;
+                        }
+
+                        None => (),
+                    };
+
                     if primary_set_based_on_activity {
                         // If we already set the role based on activity, we don't need to do it again
                         continue;
@@ -549,20 +565,6 @@ impl QueryRouter {
                             continue;
                         }
                     }
-
-                    match &self.pool_settings.automatic_sharding_key {
-                        Some(_) => {
-                            // TODO: if we have multiple queries in the same message,
-                            // we can either split them and execute them individually
-                            // or discard shard selection. If they point to the same shard though,
-                            // we can let them through as-is.
-                            // This is basically building a database now :)
-                            let inferred_shard = self.infer_shard(query);
-                            self.handle_inferred_shard(inferred_shard, &mut prev_inferred_shard)?;
-                        }
-
-                        None => (),
-                    };
 
                     let has_locks = !query.locks.is_empty();
                     let has_mutation = Self::is_mutation_query(query);
